@@ -37,7 +37,7 @@ def memcheck(r, exe, seed):
     if not vg:
         return
     log = os.path.join(core.BUILD, "runs", "memcheck-c05-%d.log" % os.getpid())
-    cases, sums, notes = core.run_child_cases(exe, "c05", seed, "quick", 0, 24, timeout=2400, prefix=[vg, "--tool=memcheck", "--smc-check=all", "--quiet", "--log-file=" + log])
+    cases, sums, notes = core.run_child_cases(exe, "c05", seed, "quick", 0, 24, extra={"nosynth": 1}, timeout=2400, prefix=[vg, "--tool=memcheck", "--smc-check=all", "--quiet", "--log-file=" + log])
     errs, txt = 0, ""
     if os.path.exists(log):
         txt = open(log, errors="replace").read()
